@@ -19,6 +19,8 @@ pub mod uri;
 mod enumord;
 mod cdisp;
 mod handenum;
+mod trunc;
+mod mpart;
 pub mod wire;
 pub mod xmatrix;
 
@@ -71,6 +73,8 @@ fn run_inner(name: &str, tier: &str) -> Option<Value> {
         "enumord" => enumord::run(tier).to_json(),
         "cdisp" => cdisp::run(tier).to_json(),
         "handenum" => handenum::run(tier).to_json(),
+        "trunc" => trunc::run(tier).to_json(),
+        "mpart" => mpart::run(tier).to_json(),
         _ => return None,
     })
 }
